@@ -135,6 +135,27 @@ package commonmark
 //@ spec LastNonWS(s []byte, a int, b int) int = b <= a ? a : (IsWS(s[b-1]) ? LastNonWS(s, a, b-1) : b)
 //@ spec AllWS(s []byte, a int, b int) bool = forall k in [a, b): IsWS(s[k])
 
+//@ lemma RunEnd_bounds(s []byte, c int, a int, b int)
+//@   requires a <= b
+//@   ensures a <= RunEnd(s, c, a, b) && RunEnd(s, c, a, b) <= b
+//@   decreases b - a
+//@   ih RunEnd_bounds(s, c, a+1, b)
+//@   trigger RunEnd(s, c, a, b)
+
+//@ lemma FirstNonWS_bounds(s []byte, a int, b int)
+//@   requires a <= b
+//@   ensures a <= FirstNonWS(s, a, b) && FirstNonWS(s, a, b) <= b
+//@   decreases b - a
+//@   ih FirstNonWS_bounds(s, a+1, b)
+//@   trigger FirstNonWS(s, a, b)
+
+//@ lemma LastNonWS_bounds(s []byte, a int, b int)
+//@   requires a <= b
+//@   ensures a <= LastNonWS(s, a, b) && LastNonWS(s, a, b) <= b
+//@   decreases b - a
+//@   ih LastNonWS_bounds(s, a, b-1)
+//@   trigger LastNonWS(s, a, b)
+
 //@ lemma RunEnd_is(s []byte, c int, a int, b int, e int)
 //@   requires a <= e && e <= b
 //@   requires forall k in [a, e): s[k] == c
@@ -185,3 +206,195 @@ package commonmark
 //@   loop 0: decreases len(line) - i
 //@   use RunEnd_is(line, line[0], 0, BodyLen(line), min(i, BodyLen(line)))
 //@   serves C15, C04
+
+// ---------------------------------------------------------------------------
+// List marker (section 5.2): a bullet list marker is a -, + or * character; an
+// ordered list marker is a sequence of 1-9 arabic digits followed by . or ).
+// The marker must be followed by a space, a tab or the end of the line.
+// ---------------------------------------------------------------------------
+
+//@ spec DigitsEnd(s []byte, a int, b int) int = a >= b ? b : (IsDigit(s[a]) ? DigitsEnd(s, a+1, b) : a)
+//@ spec DecVal(s []byte, a int, b int) int = b <= a ? 0 : DecVal(s, a, b-1) * 10 + (s[b-1] - '0')
+
+//@ lemma DigitsEnd_bounds(s []byte, a int, b int)
+//@   requires a <= b
+//@   ensures a <= DigitsEnd(s, a, b) && DigitsEnd(s, a, b) <= b
+//@   decreases b - a
+//@   ih DigitsEnd_bounds(s, a+1, b)
+//@   trigger DigitsEnd(s, a, b)
+
+//@ lemma DigitsEnd_is(s []byte, a int, b int, e int)
+//@   requires a <= e && e <= b
+//@   requires forall k in [a, e): IsDigit(s[k])
+//@   requires e == b || !IsDigit(s[e])
+//@   ensures DigitsEnd(s, a, b) == e
+//@   decreases e - a
+//@   ih DigitsEnd_is(s, a+1, b, e)
+
+//@ lemma DigitsEnd_ge(s []byte, a int, b int, e int)
+//@   requires a <= e && e <= b
+//@   requires forall k in [a, e): IsDigit(s[k])
+//@   ensures DigitsEnd(s, a, b) >= e
+//@   decreases e - a
+//@   ih DigitsEnd_ge(s, a+1, b, e)
+
+//@ spec IsBulletChar(c int) bool = c == '-' || c == '+' || c == '*'
+//@ spec BulletMarker(s []byte) bool = len(s) >= 1 && IsBulletChar(s[0]) && (len(s) == 1 || IsSpaceTabEOL(s[1]))
+//@ spec OrderedMarker(s []byte, d int) bool = 1 <= d && d <= 9 && d < len(s) && (s[d] == '.' || s[d] == ')')
+//@     && (d+1 == len(s) || IsSpaceTabEOL(s[d+1]))
+
+//@ func parseListMarker
+//@   ensures[bullet] BulletMarker(line) ==> (result.end == 1 && result.delim == line[0] && result.n == 0)
+//@   ensures[ordered] OrderedMarker(line, DigitsEnd(line, 0, len(line))) ==> (result.end == DigitsEnd(line, 0, len(line)) + 1
+//@       && result.delim == line[result.end - 1] && result.n == DecVal(line, 0, result.end - 1))
+//@   ensures[neither] (!BulletMarker(line) && !OrderedMarker(line, DigitsEnd(line, 0, len(line)))) ==> result.end == -1
+//@   ensures[range] result.end == -1 || (1 <= result.end && result.end <= 10 && result.end <= len(line) && 0 <= result.n && result.n <= 999999999)
+//@   loop 0: invariant[idx] 1 <= i && i <= 10 && i <= len(line) && (forall k in [0, i): IsDigit(line[k]))
+//@   loop 0: invariant[val] n == DecVal(line, 0, i) && 0 <= n
+//@   loop 0: invariant[bound] (i == 1 ==> n <= 9) && (i == 2 ==> n <= 99) && (i == 3 ==> n <= 999) && (i == 4 ==> n <= 9999)
+//@       && (i == 5 ==> n <= 99999) && (i == 6 ==> n <= 999999) && (i == 7 ==> n <= 9999999) && (i == 8 ==> n <= 99999999)
+//@       && (i == 9 ==> n <= 999999999) && (i == 10 ==> n <= 9999999999)
+//@   loop 0: decreases 10 - i
+//@   use DigitsEnd_is(line, 0, len(line), i)
+//@   use DigitsEnd_ge(line, 0, len(line), i)
+//@   serves C15, C04, C05, C13
+
+// ---------------------------------------------------------------------------
+// Code fence (section 4.5): at least three consecutive backticks or tildes;
+// the rest of the line, stripped of leading and trailing spaces and tabs, is
+// the info string; the info string of a backtick fence contains no backtick.
+// ---------------------------------------------------------------------------
+
+//@ spec FenceRun(s []byte) int = RunEnd(s, s[0], 0, BodyLen(s))
+//@ spec InfoStart(s []byte) int = FirstNonWS(s, FenceRun(s), BodyLen(s))
+//@ spec InfoEnd(s []byte) int = LastNonWS(s, InfoStart(s), BodyLen(s))
+//@ spec HasByte(s []byte, c int, a int, b int) bool = exists k in [a, b): s[k] == c
+//@ spec IsFence(s []byte) bool = BodyLen(s) >= 3 && (s[0] == '`' || s[0] == '~') && FenceRun(s) >= 3
+//@     && !(s[0] == '`' && HasByte(s, '`', InfoStart(s), InfoEnd(s)))
+
+//@ func parseCodeFence
+//@   requires LineShape(line)
+//@   ensures[fence] IsFence(line) ==> (result.n == FenceRun(line) && result.char == line[0])
+//@   ensures[info] (IsFence(line) && InfoStart(line) < BodyLen(line)) ==> (result.info.Start == InfoStart(line) && result.info.End == InfoEnd(line))
+//@   ensures[noinfo] (IsFence(line) && InfoStart(line) >= BodyLen(line)) ==> (result.info.Start == -1 && result.info.End == -1)
+//@   ensures[notfence] !IsFence(line) ==> (result.n == 0 && result.char == 0 && result.info.Start == -1 && result.info.End == -1)
+//@   ensures[range] result.n == 0 || (3 <= result.n && result.n <= len(line))
+//@   ensures[inforange] result.info.Start == -1 || (result.n <= result.info.Start && result.info.Start < result.info.End && result.info.End <= len(line))
+//@   loop 0: invariant[run] 1 <= f.n && f.n <= len(line) && f.char == line[0] && (forall k in [0, f.n): line[k] == line[0])
+//@   loop 0: invariant[info] f.info.Start == -1 && f.info.End == -1
+//@   loop 0: decreases len(line) - f.n
+//@   loop 1: invariant[idx] f.n <= i && i <= len(line) && f.info.End == -1
+//@   loop 1: invariant[none] f.info.Start < 0 ==> (f.info.Start == -1 && (forall k in [f.n, i): IsSpaceTabEOL(line[k])))
+//@   loop 1: invariant[found] f.info.Start >= 0 ==> (f.info.Start == i - 1 && f.n <= f.info.Start && !IsSpaceTabEOL(line[f.info.Start])
+//@       && (forall k in [f.n, f.info.Start): IsSpaceTabEOL(line[k])))
+//@   loop 1: decreases len(line) - i
+//@   loop 2: invariant[end] f.info.Start < f.info.End && f.info.End <= len(line) && (forall k in [f.info.End, len(line)): IsSpaceTabEOL(line[k]))
+//@   loop 2: decreases f.info.End
+//@   loop 3: invariant[nobt] f.info.Start <= i && i <= f.info.End && (forall k in [f.info.Start, i): line[k] != '`')
+//@   loop 3: decreases f.info.End - i
+//@   use RunEnd_is(line, line[0], 0, BodyLen(line), f.n)
+//@   use FirstNonWS_is(line, f.n, BodyLen(line), f.info.Start < 0 ? BodyLen(line) : f.info.Start)
+//@   use LastNonWS_is(line, f.info.Start, BodyLen(line), f.info.End)
+//@   use LastNonWS_is(line, BodyLen(line), BodyLen(line), BodyLen(line))
+//@   serves C15, C04, C13
+
+// ---------------------------------------------------------------------------
+// Backslash escapes at the end of a prefix
+// ---------------------------------------------------------------------------
+
+//@ -- BSRun(s,b): length of the maximal run of backslashes that ends just before index b
+//@ spec BSRun(s []byte, b int) int = b <= 0 ? 0 : (s[b-1] == '\\' ? 1 + BSRun(s, b-1) : 0)
+//@ spec EndEsc(s []byte, k int) bool = BSRun(s, k) % 2 == 1
+
+//@ lemma BSRun_bounds(s []byte, b int)
+//@   ensures 0 <= BSRun(s, b) && (b >= 0 ==> BSRun(s, b) <= b)
+//@   induction b from 0
+//@   trigger BSRun(s, b)
+
+//@ lemma BSRun_is(s []byte, b int, n int)
+//@   requires 0 <= n && n <= b
+//@   requires forall k in [b-n, b): s[k] == '\\'
+//@   requires n == b || s[b-n-1] != '\\'
+//@   ensures BSRun(s, b) == n
+//@   decreases n
+//@   ih BSRun_is(s, b-1, n-1)
+
+//@ func isEndEscaped
+//@   ensures[equiv] result <==> EndEsc(s, len(s))
+//@   loop 0: invariant[run] 0 <= n && n <= len(s) && (forall j in [0, n): s[len(s)-1-j] == '\\')
+//@   loop 0: decreases len(s) - n
+//@   use BSRun_is(s, len(s), n)
+//@   serves C15, C04
+
+// ---------------------------------------------------------------------------
+// ATX heading (section 4.2): an opening sequence of 1-6 unescaped # characters,
+// followed by a space, a tab or the end of the line; the raw contents are
+// stripped of leading and trailing spaces and tabs; an optional closing
+// sequence of any number of # characters must be preceded by a space or tab
+// and may be followed by spaces or tabs only.
+// ---------------------------------------------------------------------------
+
+//@ -- RunStart: start of the maximal run of c that ends at b, within [a,b)
+//@ spec RunStart(s []byte, c int, a int, b int) int = b <= a ? a : (s[b-1] == c ? RunStart(s, c, a, b-1) : b)
+
+//@ lemma RunStart_bounds(s []byte, c int, a int, b int)
+//@   requires a <= b
+//@   ensures a <= RunStart(s, c, a, b) && RunStart(s, c, a, b) <= b
+//@   decreases b - a
+//@   ih RunStart_bounds(s, c, a, b-1)
+//@   trigger RunStart(s, c, a, b)
+
+//@ lemma RunStart_is(s []byte, c int, a int, b int, e int)
+//@   requires a <= e && e <= b
+//@   requires forall k in [e, b): s[k] == c
+//@   requires e == a || s[e-1] != c
+//@   ensures RunStart(s, c, a, b) == e
+//@   decreases b - e
+//@   ih RunStart_is(s, c, a, b-1, e)
+
+//@ spec HashRun(s []byte) int = RunEnd(s, '#', 0, BodyLen(s))
+//@ spec ATXLevel(s []byte) int = (1 <= HashRun(s) && HashRun(s) <= 6 && (HashRun(s) == BodyLen(s) || IsWS(s[HashRun(s)]))) ? HashRun(s) : 0
+//@ -- raw contents: [ATXcs, ATXt) after stripping spaces and tabs
+//@ spec ATXcs(s []byte) int = FirstNonWS(s, HashRun(s), BodyLen(s))
+//@ spec ATXt(s []byte) int = LastNonWS(s, ATXcs(s), BodyLen(s))
+//@ -- closing sequence: the run of # that ends at ATXt, if it is preceded by a space or tab
+//@ spec ATXh(s []byte) int = RunStart(s, '#', ATXcs(s), ATXt(s))
+//@ spec ATXClosing(s []byte) bool = ATXh(s) < ATXt(s) && IsWS(s[ATXh(s) - 1])
+//@ spec ATXEnd(s []byte) int = ATXt(s) <= ATXcs(s) ? ATXcs(s) : (ATXClosing(s) ? LastNonWS(s, ATXcs(s), ATXh(s)) : ATXt(s))
+//@ -- no space or tab of the line directly follows an odd run of backslashes
+//@ spec NoEscWS(s []byte) bool = forall k in [0, len(s)): IsWS(s[k]) ==> !EndEsc(s, k)
+
+//@ func parseATXHeading
+//@   requires LineShape(line)
+//@   ensures[level] result.level == ATXLevel(line)
+//@   ensures[notatx] ATXLevel(line) == 0 ==> (result.content.Start == 0 && result.content.End == 0)
+//@   ensures[start] ATXLevel(line) > 0 ==> result.content.Start == ATXcs(line)
+//@   ensures[end] (ATXLevel(line) > 0 && NoEscWS(line)) ==> result.content.End == ATXEnd(line)
+//@   ensures[end-escaped-ws] ATXLevel(line) > 0 ==> result.content.End == ATXEnd(line)
+//@   ensures[range] 0 <= result.content.Start && result.content.Start <= result.content.End && result.content.End <= len(line)
+//@   loop 0: invariant[run] 0 <= h.level && h.level <= len(line) && (forall k in [0, h.level): line[k] == '#')
+//@   loop 0: invariant[zero] h.content.Start == 0 && h.content.End == 0
+//@   loop 0: decreases len(line) - h.level
+//@   loop 1: invariant[ws] h.level < i && i <= len(line) && (forall k in [h.level, i): IsWS(line[k]))
+//@   loop 1: decreases len(line) - i
+//@   loop 2: use RunEnd_is(line, '#', 0, BodyLen(line), h.level)
+//@   loop 2: use FirstNonWS_is(line, h.level, BodyLen(line), min(h.content.Start, BodyLen(line)))
+//@   loop 2: invariant[lvl] h.level == ATXLevel(line) && 1 <= h.level && h.level <= 6 && h.level == HashRun(line)
+//@   loop 2: invariant[cs] h.content.Start == ATXcs(line) && h.level < h.content.Start && h.content.Start <= BodyLen(line) && IsWS(line[h.content.Start - 1])
+//@   loop 2: invariant[back] h.content.Start <= h.content.End && h.content.End <= len(line) && !hitHash
+//@       && (forall k in [h.content.End, len(line)): IsSpaceTabEOL(line[k]))
+//@   loop 2: decreases h.content.End
+//@   loop 3: use LastNonWS_is(line, h.content.Start, BodyLen(line), h.content.End)
+//@   loop 3: invariant[lvl] h.level == ATXLevel(line) && 1 <= h.level && h.content.Start == ATXcs(line) && IsWS(line[h.content.Start - 1])
+//@   loop 3: invariant[t] h.content.End == ATXt(line) && h.content.Start < h.content.End && h.content.End <= BodyLen(line)
+//@   loop 3: invariant[hashes] h.content.Start - 1 <= i && i < h.content.End && (forall k in [i+1, h.content.End): line[k] == '#')
+//@   loop 3: decreases i + 1
+//@   loop 4: invariant[lvl] h.level == ATXLevel(line) && 1 <= h.level && h.content.Start == ATXcs(line)
+//@   loop 4: invariant[trim] h.content.Start <= h.content.End && h.content.End <= i + 1 && (forall k in [h.content.End, i + 1): IsWS(line[k]))
+//@   loop 4: decreases h.content.End
+//@   use RunEnd_is(line, '#', 0, BodyLen(line), min(h.level, BodyLen(line)))
+//@   use FirstNonWS_is(line, h.level, BodyLen(line), min(result.content.Start, BodyLen(line)))
+//@   use LastNonWS_is(line, result.content.Start, BodyLen(line), min(result.content.End, BodyLen(line)))
+//@   use RunStart_is(line, '#', ATXcs(line), ATXt(line), i + 1)
+//@   use LastNonWS_is(line, ATXcs(line), i + 1, result.content.End)
+//@   serves C15, C04, C03, C13, C05
